@@ -9,7 +9,7 @@ COQ_EXEC = ['exec.X_group', 'exec.X_sort']
 COQ_IMPORTS = 'From PB Require Import model.M_sort model.M_group.\n'
 PER_FILE = 400
 CASE_TIMEOUT = 5
-RULE = ('cases: tables of 0-8 rows (thorough 0-12) and 2-4 columns with scalar cells (None, ints, floats incl. 1 vs 1.0, NaN, strings, datetimes); keys = every '
+RULE = ('cases: tables of 0-8 rows (thorough 0-12) and 2-4 columns with scalar cells (None, ints incl. adjacent ints beyond 2^53, floats incl. 1 vs 1.0 and float(2**53), NaN, strings, datetimes); keys = every '
         'kind of non-empty proper subset of the columns, duplicate / unique / mixed-type key columns (NaN cells of a key column share one object). '
         '(1) listby(by) and listby(by).unlist(), (2) groupby(by) (key table, every sub-table) and .ungroup(), incl. the ValueError on all columns, '
         '(3) xyz(x, y, z, agg) for agg in None/last/first/len/sum with string or small-int y labels and its unpivot(x, y, z). Whole result tables '
@@ -17,11 +17,15 @@ RULE = ('cases: tables of 0-8 rows (thorough 0-12) and 2-4 columns with scalar c
         'list the key\'s values in original order, unlist = stable sort by keys (cells up to ==), group sizes sum to len, ungroup = same multiset of '
         'rows, every pivot cell = agg of the z of exactly the rows with that (x, y) and None elsewhere, unpivot minus None cells = the (x, label, cell) '
         'triples. non-trivial = at least 2 rows and a key with a duplicate or a re-ordering; distinct by full input')
-EXPLANATION = ('theorems C11_* (coq/props/C11.v) are about the executable model of _listby (sort decorated keys, run-length group) for every table and key '
-               'choice; the correspondence ties listby / unlist / groupby / ungroup / xyz / unpivot to /repo on every run, evaluated inside Coq')
+EXPLANATION = ('theorems C11_* (coq/props/C11.v), for every table and key choice, about the executable model of _listby (sort decorated keys, run-length group) '
+               'and of listby / unlist / groupby / ungroup / xyz / unpivot built on it: one group per distinct key holding exactly the rows with that key in '
+               'original order; unlist(listby) = the stably sorted table at table level (key cells equal up to ==, literally equal rows when == keys are identical); '
+               'ungroup(groupby) = a Permutation of the rows; every pivot cell = agg of the z of exactly the rows with that (x, y), None elsewhere; '
+               'unpivot(pivot) recovers each (x, y label, z) row exactly once for unique (x, y) and z not None. The correspondence ties the model to /repo '
+               'on every run, evaluated inside Coq')
 TRUSTED = ['modelled, not verified: dictable construction / concat / dict_concat plumbing (column order is observed up to sorting), CPython sorted() is stable',
-           'pivot / unpivot: model + correspondence + oracle (the Coq theorems cover _listby, listby, unlist, groupby, ungroup)']
-ASSUMPTIONS = ['cells are scalars; NaN cells inside one key column are one object (tuple == goes by identity for NaN)', 'key columns are distinct existing names',
+           'the theorems are about the Gallina model (M_group.v); its agreement with _dictable.py is what the correspondence checks']
+ASSUMPTIONS = ['ints are exact at any size (adjacent ints beyond 2^53, 10**30 and float(2**53) are in the key pools); cells are scalars; NaN cells inside one key column are one object (tuple == goes by identity for NaN)', 'key columns are distinct existing names',
                'pivot: y values are strings or ints 0..9 that do not collide with column names; table non-empty']
 EXHAUSTIVE = {'quick': False, 'thorough': False}
 
@@ -272,7 +276,7 @@ def gen_cases(rng, tier):
             elif c == z:
                 cells = V.rand_column(rng, n, 'ints' if agg == 'sum' else rng.choice(['ints', 'mixed', 'nums', 'strs', 'none']))[1]
             elif c in x:
-                cells = share_nan(V.rand_column(rng, n, rng.choice(['ints', 'ints', 'nums', 'strs', 'mixed', 'numsnan']))[1])
+                cells = share_nan(V.rand_column(rng, n, rng.choice(['ints', 'ints', 'nums', 'strs', 'mixed', 'numsnan', 'huge']))[1])
             else:
                 cells = V.rand_column(rng, n)[1]
             cols.append([c, cells])
@@ -292,10 +296,15 @@ def shrink(case):
         for j in range(len(case['by'])):
             yield dict(case, by=case['by'][:j] + case['by'][j + 1:])
 
-LEVEL_TEXT = ('machine-checked Coq theorems (C11_*, for every table, every key choice, no bound) about the executable model of _listby and the regroupings '
-              'built on it: the groups partition the stably sorted row indices into maximal runs of equal keys (one group per distinct key, members in original '
-              'order), listby/unlist and groupby/ungroup give back exactly the stably sorted rows with key cells replaced by an == representative, group sizes '
-              'sum to len; the model (incl. pivot / unpivot) is compared with /repo inside Coq on thousands of generated tables on every run')
-LEVEL_NOTE = ('pivot / unpivot are covered by model + correspondence + property oracle, not by a Coq theorem beyond the shared _listby core; sorting follows the '
-              'repaired sort of C07 (NaN keys on the pinned tree inherit the C07 defect); trusted: Coq kernel/vm_compute, dictable construction plumbing')
+LEVEL_TEXT = ('machine-checked Coq theorems (C11_*, for every table, every key choice, no bound) about the executable model: _listby partitions the stably sorted '
+              'row indices into one group per distinct key, each holding EXACTLY the rows whose key compares 0 with the group key, in original order '
+              '(C11_listby_one_row_per_key); unlist(listby(keys)) is, at table level, the stably sorted table with key cells replaced by an == representative, '
+              'and literally map (row T) idx when == keys are identical (C11_unlist_listby); group sizes sum to len (C11_groupby_sizes_sum); '
+              'ungroup(groupby(keys)) holds the rows of the table at a permutation of the indices, a Permutation of rows when == keys are identical '
+              '(C11_ungroup_groupby); every pivot cell is agg of the z values of exactly the rows with that (x key, y value) in original order and None '
+              'where no row exists, every row has its cell (C11_pivot_cell); for unique (x, y) and z not None, unpivot(pivot) lists each (x, y label, z) row '
+              'of the table exactly once next to None rows (C11_unpivot_pivot). The model is compared with /repo inside Coq on thousands of tables on every run')
+LEVEL_NOTE = ('hypotheses of the pivot theorems: cells are NaN-free scalars, y labels do not collide with x column names, agg last/first for unpivot; '
+              'the theorems are about the Gallina model, tied to _dictable.py by the correspondence; sorting follows the repaired sort of C07; '
+              'trusted: Coq kernel/vm_compute, dictable construction plumbing')
 TECHNIQUE = 'Coq proof (induction over the run-length grouping of a stably sorted index list) + differential correspondence in vm_compute + property oracle on the real outputs'
